@@ -50,7 +50,7 @@ WRAPPERS = [
     ('never-failing choice', lambda s: f'("zz" | ({s})?)', lambda v: v),
 ]
 
-DEPTHS_QUICK = [1, 2, 5, 9, 10, 16, 17, 18, 19, 20, 21, 35, 36, 37, 38, 39, 55, 60, 90, 120]
+DEPTHS_QUICK = [1, 2, 5, 9, 10, 16, 17, 18, 19, 20, 21, 35, 36, 37, 38, 39, 55, 60, 90, 100, 120]
 
 
 def grammar_for(inner, wrap, depth, named, ignore, tag):
@@ -105,8 +105,8 @@ def run(tier, seed, lean):
     for inner in INNERS:
         for wname, wrap, wval in WRAPPERS:
             for depth in depths:
-                if wname in ('seq+opt', 'never-failing choice') and depth > 60:
-                    continue          # two layers per level: keep the total number of layers within 1..120
+                if wname in ('seq+opt', 'never-failing choice') and depth > 100:
+                    continue          # two layers per level: the statement's range is 'depths 1..100+'
                 if tier == 'quick' and rng.random() < 0.45 and depth not in (17, 18, 19, 36, 37, 38):
                     continue
                 named = rng.random() < 0.4
@@ -176,6 +176,19 @@ def run(tier, seed, lean):
     violations += deep_bad
     # ... and the deep result handed to a template as an argument value (it becomes part of a memo key)
     import realrun as rr_
+    for name, text, make in DEEP_ARGUMENTS_OK:
+        mod, _ = rr_.compile_grammar(text)
+        for depth in (1100, 5000):
+            deep_n += 1
+            try:
+                with rr_.time_limit(60):
+                    mod.parse(make(depth))          # (the value is not printed: the printer of the harness is recursive)
+                r = ('V',)
+            except Exception as exc:      # noqa: BLE001
+                r = ('X', type(exc).__name__)
+            if r[0] != 'V':
+                violations.append({'key': f'deep-argument|{name}|{depth}', 'sig': f'deep-argument|{name}', 'kind': 'spec', 'case': name,
+                                   'what': f'{name}: recursion depth {depth} through the input, result passed to a template: {str(r)[:100]}'})
     for name, text, make in DEEP_ARGUMENTS:
         mod, _ = rr_.compile_grammar(text)
         for depth in (300, 3000):
@@ -262,7 +275,8 @@ def names_layer_jobs(tier, seed):
         g = envgen.Gen(random.Random(rng.randrange(1 << 30)), shadow=0.0, named=('envd' if i % 3 == 0 else None))
         base.append((f'generated{i}', g.program(n_rules=rng.randrange(1, 3), n_templates=rng.randrange(0, 3), depth=rng.randrange(2, 4))))
     jobs = []
-    hand_inputs = ['a!', 'b', 'bc', 'aab', 'abcab', '2,3', '3,2', '1,1', '2abc', '0', '3abc', 'aaa', 'aa', 'ab', 'ba', '(2)', '(2)a', '(a)', '']
+    hand_inputs = ['a!', 'b', 'bc', 'aab', 'abcab', '2,3', '3,2', '1,1', '2abc', '0', '3abc', 'aaa', 'aa', 'ab', 'ba', '(2)', '(2)a', '(a)', '',
+                   '2,ab', '1,c', '0,', 'a,b', '3,abc', '2,a']
     for fam, P in base:
         for k in ((18, 21) if fam.startswith('generated') else (17, 19, 20, 22, 41)):
             Q = dict(P)
@@ -289,6 +303,12 @@ DEEP = [
 ]
 
 
+DEEP_ARGUMENTS_OK = [
+    ('deep list as argument', 'start = let tree = Nest in Trailer(tree)\nNest = ["(", Nest?, ")"]\nTrailer(t) = ";" >> `t`\n',
+     lambda d: '(' * d + ')' * d + ';'),
+    ('deep list as class argument', 'start = let tree = Nest in Box(tree)\nNest = ["(", Nest?, ")"]\nclass Box(t) { semi: ";"; inner: `len(t)` }\n',
+     lambda d: '(' * d + ')' * d + ';'),
+]
 DEEP_ARGUMENTS = [
     ('deep object as argument', 'start = let tree = Nest in Tail(tree)\nclass Nest { open: "("; child: Nest?; close: ")" }\nTail(t) = ";" >> `t`\n',
      lambda d: '(' * d + ')' * d + ';'),
